@@ -1309,7 +1309,8 @@ func (v *Decoder) walkNode(ectx evaluationContext, n *html.Node) error {
 			}
 		}
 
-		if currentLanguage != nil {
+		// a typed literal (a non-empty @datatype, also xsd:string) takes no language
+		if currentLanguage != nil && len(datatypeIRI) == 0 {
 			if cpvLiteral, ok := currentPropertyValue.(rdf.Literal); ok && cpvLiteral.Datatype == xsdiri.String_Datatype {
 				cpvLiteral.Datatype = rdfiri.LangString_Datatype
 				cpvLiteral.Tag = rdf.LanguageLiteralTag{
